@@ -78,11 +78,15 @@ pub struct Response {
     pub gate: Option<Arc<Gate>>,
     /// notify this gate when the request has been received (before waiting on `gate`)
     pub arrived: Option<Arc<Gate>>,
+    /// deliver the body with Transfer-Encoding: chunked (no Content-Length) in pieces of varying size
+    pub chunked: bool,
+    /// send header names in lower case
+    pub lowercase_headers: bool,
 }
 
 impl Response {
     pub fn new(status: u16, body: Vec<u8>) -> Self {
-        Response { status, headers: Vec::new(), body, declared_length: None, gate: None, arrived: None }
+        Response { status, headers: Vec::new(), body, declared_length: None, gate: None, arrived: None, chunked: false, lowercase_headers: false }
     }
     pub fn xml(body: String) -> Self {
         let mut r = Response::new(200, body.into_bytes());
@@ -231,13 +235,37 @@ impl Server {
             503 => "Service Unavailable",
             _ => "Status",
         };
-        let mut out = format!("HTTP/1.1 {} {}\r\nConnection: close\r\nContent-Length: {}\r\n", resp.status, reason, resp.declared_length.unwrap_or(resp.body.len()));
+        let name = |n: &str| if resp.lowercase_headers { n.to_ascii_lowercase() } else { n.to_string() };
+        let mut out = format!("HTTP/1.1 {} {}\r\n{}: close\r\n", resp.status, reason, name("Connection"));
+        let chunked = resp.chunked && resp.declared_length.is_none() && resp.status != 204;
+        if chunked {
+            out.push_str(&format!("{}: chunked\r\n", name("Transfer-Encoding")));
+        } else {
+            out.push_str(&format!("{}: {}\r\n", name("Content-Length"), resp.declared_length.unwrap_or(resp.body.len())));
+        }
         for (k, v) in &resp.headers {
-            out.push_str(&format!("{}: {}\r\n", k, v));
+            out.push_str(&format!("{}: {}\r\n", name(k), v));
         }
         out.push_str("\r\n");
         stream.write_all(out.as_bytes())?;
-        stream.write_all(&resp.body)?;
+        if chunked {
+            // pieces of varying size derived from the body length (deterministic)
+            let mut x = (resp.body.len() as u64).wrapping_mul(0x9E37_79B9_7F4A_7C15) | 1;
+            let mut pos = 0usize;
+            while pos < resp.body.len() {
+                x ^= x << 13;
+                x ^= x >> 7;
+                x ^= x << 17;
+                let n = (1 + (x % 4096) as usize).min(resp.body.len() - pos);
+                stream.write_all(format!("{:x}\r\n", n).as_bytes())?;
+                stream.write_all(&resp.body[pos..pos + n])?;
+                stream.write_all(b"\r\n")?;
+                pos += n;
+            }
+            stream.write_all(b"0\r\n\r\n")?;
+        } else {
+            stream.write_all(&resp.body)?;
+        }
         stream.flush()?;
         // let the client close first where possible, so that TIME_WAIT lands on its side of the pair
         let _ = stream.shutdown(std::net::Shutdown::Write);
